@@ -95,6 +95,43 @@ def expected(rec, R):
     return out
 
 
+def expected_dev(rec, sp, R):
+    """What the CODE is modelled to return per formula shape (XlCriteria!ImplAccepts verdicts 'yes' / 'no' / 'raise' per position,
+    exported by the specification) - the deviation model of the open findings C12-F1..F4. The order in which the helpers call the
+    criteria is theirs: _sumifs / _averageifs / _sum_if ask every position; _countifs asks its FIRST pair only at positions the
+    other pairs accepted. 'ERR' = a raised exception."""
+    vc, vn = rec['iv'][sp]['c'], rec['iv'][sp]['n']
+    col = rec['col']
+    c_acc = [i + 1 > 1 for i in range(R)]                  # second pair: column C holds 1..R, criterion ">1"
+
+    def sel_all(v, other=None, first=1):
+        if any(x == 'raise' for x in v[first - 1:]):
+            return None
+        return [i + 1 for i in range(first - 1, R) if v[i] == 'yes' and (other is None or other[i])]
+
+    out = []
+    s = sel_all(vn)
+    out.append('ERR' if s is None else sum(cell_value(col[i - 1]) for i in s if col[i - 1]['k'] == 'num'))          # 0 SUMIF(a,T)
+    out.append('ERR' if s is None else sum(target(i - 1) for i in s))                                                  # 1 SUMIF(a,T,b)
+    sc = sel_all(vc)
+    out.append('ERR' if sc is None else sum(target(i - 1) for i in sc))                                                # 2 SUMIFS
+    out.append('ERR' if s is None else len(s))                                                                         # 3 COUNTIFS(a,T)
+    out.append('ERR' if sc is None or not sc else sum(target(i - 1) for i in sc) / len(sc))                            # 4 AVERAGEIFS
+    sc12 = sel_all(vc, c_acc)
+    out.append('ERR' if sc12 is None else sum(target(i - 1) for i in sc12))                                            # 5 SUMIFS(b,a,T,c,">1")
+    lazy = None if any(vn[i] == 'raise' and c_acc[i] for i in range(R)) else [i + 1 for i in range(R) if c_acc[i] and vn[i] == 'yes']
+    out.append('ERR' if lazy is None else len(lazy))                                                                   # 6 COUNTIFS(a,T,c,">1"): T asked where C accepted
+    out.append('ERR' if sc12 is None else sum(target(i - 1) for i in sc12))                                            # 7 SUMIFS(b,c,">1",a,T)
+    out.append('ERR' if sc12 is None or not sc12 else sum(target(i - 1) for i in sc12) / len(sc12))                    # 8 AVERAGEIFS(b,c,">1",a,T)
+    out += ['ERR'] * 6                                                                                                 # 9-14 mis-sized
+    sn12 = sel_all(vn, c_acc)
+    out.append('ERR' if sn12 is None else len(sn12))                                                                   # 15 COUNTIFS(c,">1",a,T)
+    out.append('ERR' if s is None else sum(target(i - 1) for i in s))                                                  # 16 SUMIF(a,T,B:B)
+    s2 = sel_all(vn, None, 2)
+    out.append('ERR' if s2 is None else sum(target(i - 2) for i in s2))                                                # 17 SUMIF(A2:An,T,B:B)
+    return out
+
+
 def outcome(kind, p):
     if kind == 'eexc':
         return 'ERR'
@@ -160,7 +197,8 @@ def _crit_job(args):
                     n += 1
                     got = outcome(*r)
                     if not same(exp[j], got):
-                        bad.append((sp, j, st['forms'][k], exp[j], show(*r)))
+                        dev = expected_dev(rec, sp, R)[j]
+                        bad.append((sp, j, st['forms'][k], exp[j], show(*r), same(dev, got), dev))
             out.append((n, bad))
         return out
     except Exception as e:
@@ -201,8 +239,15 @@ def gen(run):
                           nontrivial=len(rec['sel']) not in (0, R))
                 run.evaluations -= 1
             seen = set()
-            for (sp, j, form, exp, got) in bad:
+            for (sp, j, form, exp, got, as_modelled, dev) in bad:
                 devs = sorted(set(rec['g'][sp]) | (set(rec.get('gsum', {}).get(sp, [])) if j not in COUNT_SHAPES else set()))
+                if devs and not as_modelled:
+                    # inside the Guard of an open finding, but NOT the deviation the finding describes: a different violation
+                    run.judge({'in': {'col': rec['col'], 'crit': rec['crit'], 'spelling': sp, 'formula': form, 'contents': cont, 'R': R, 'shape': j},
+                               'ideal': exp if exp != 'ERR' else 'an error outcome', 'obs': got, 'kind': 'gen', 'modelled_deviation': dev}, False,
+                              clause=f'{form} with A1..={cont} (criterion {crit} spelled as {sp}) = {got}: neither the selection of the accepted positions ({exp}) '
+                                     f'nor the deviation recorded as {devs} ({dev})', part='gen')
+                    continue
                 key = (sp, j if not devs else -1)
                 if key in seen and devs:
                     continue
